@@ -97,7 +97,7 @@ def scaling_shape(env, g, k, stat):
 ANGLES = [90.0, 97.0, -26.5, 360.0, 725.25]
 
 
-@harness(P, quick=grid(g=["G1", "G2"], a=[90.0, 97.0, -26.5], inplace=[False]) + grid(g=["G1"], a=[97.0, 90.0], inplace=[True]), thorough=grid(g=["G3", "D6"], a=ANGLES, inplace=[False, True]) + grid(g=["G1"], a=[360.0, 725.25], inplace=[False]))
+@harness(P, quick=grid(g=["G1", "G2"], a=[90.0, 97.0, -26.5], inplace=[False]) + grid(g=["G1"], a=[97.0, 90.0], inplace=[True]) + grid(g=["S2"], a=[350.0, 90.0], inplace=[False]), thorough=grid(g=["S2", "PS"], a=[350.0, 45.0, 725.25], inplace=[False, True]) + grid(g=["G3", "D6"], a=ANGLES, inplace=[False, True]) + grid(g=["G1"], a=[360.0, 725.25], inplace=[False]))
 def rotation(env, g, a, inplace):
     """relabel dir -> (dir + a) % 360: non-directional statistics unchanged, moment vector rotates by a, dp shifts by a.
     inplace: the relabelling is an in-place coordinate assignment on an object whose statistics were already used."""
@@ -211,24 +211,35 @@ def bounds(env, g):
         env.claim(AND(v >= 0, v <= math.sqrt(2) * R2D * (1 + 1e-9)), "dspr in [0, 81.03] degrees")
 
 
-@harness(P, quick=grid(g=["G2", "G3"], lead=[(("site", 2),)]), thorough=grid(g=["G1"], lead=[(("time", 2),)]), max_paths=3000)
-def scale_by_hs(env, g, lead):
-    """scale_by_hs('va*hs+vb', hs_min, hs_max): prescribed height inside the range, untouched outside."""
+@harness(P, quick=grid(g=["G2", "G3"], lead=[(("site", 2),)], window=["hs"]) + grid(g=["G2"], lead=[(("site", 2),)], window=["tp", "dpm"]),
+         thorough=grid(g=["G1"], lead=[(("time", 2),)], window=["hs", "tp", "dpm"]) + grid(g=["G3"], lead=[(("site", 2),)], window=["tp", "dpm"]), max_paths=3000, time_budget=400, hard_timeout=800)
+def scale_by_hs(env, g, lead, window="hs"):
+    """scale_by_hs('va*hs+vb', <window>_min, <window>_max): prescribed height for the spectra whose hs / tp / dpm
+    lies inside the window, every other spectrum untouched - in particular one whose tp / dpm is missing (no
+    interior peak). Membership of tp / dpm is judged with the library's own tp() / dpm() (checked in C02)."""
     import wavespectra.specarray as SA
     da, vals = mk_spec(env, g, lead=lead)
     f, d = da.freq.values, da.dir.values
     va = env.real("va", lo=0.0, hi=10.0)
     vb = env.real("vb", lo=0.01, hi=10.0)
-    lo = env.real("hs_lo", lo=0.0, hi=20.0)
-    hi = env.real("hs_hi", lo=0.0, hi=20.0)
+    if window == "hs":
+        lo = env.real("hs_lo", lo=0.0, hi=20.0)
+        hi = env.real("hs_hi", lo=0.0, hi=20.0)
+    elif window == "tp":
+        lo = env.real("tp_lo", lo=0.5, hi=30.0)
+        hi = env.real("tp_hi", lo=0.5, hi=30.0)
+    else:
+        lo = env.real("dpm_lo", lo=0.0, hi=360.0)
+        hi = env.real("dpm_hi", lo=0.0, hi=360.0)
     env.assume(lo < hi)
     n = lead[0][1]
     for p in range(n):
         env.assume(total(vals[p]) > 0)
     SA.va, SA.vb = va, vb
     try:
-        with env.stubs(ST.chunk_identity, *ST.peak_stubs()):
-            out = da.spec.scale_by_hs("va*hs + vb", hs_min=lo, hs_max=hi)
+        with env.stubs(ST.chunk_identity, *ST.peak_stubs()), env.lazy_sqrt():
+            out = da.spec.scale_by_hs("va*hs + vb", **{window + "_min": lo, window + "_max": hi})
+            ref_stat = None if window == "hs" else getattr(da.spec, window)()
     finally:
         del SA.va, SA.vb
     out = out.transpose(*da.dims)
@@ -238,12 +249,19 @@ def scale_by_hs(env, g, lead):
         Eo = rows(out.values[p])
         h2 = I.hs2(E, f, d)
         h = env.sqrt(h2)
-        inside = AND(h >= lo, h <= hi)
         ho2 = I.hs2(Eo, f, d)
         target = va * h + vb
-        if env.proves(inside):
-            env.close(ho2, target * target, "inside the hs range: hs(out) = a*hs(in)+b", rel=1e-9, ctol=1e-5)
-        elif env.proves(NOT(inside)):
-            env.equal(out.values[p], vals[p], "outside the hs range: spectrum untouched")
+        if window == "hs":
+            inside = AND(h >= lo, h <= hi)
         else:
-            env.claim(False, "path condition does not determine range membership (harness cannot decide)")
+            sv = env.resolve(np.asarray(ref_stat.values, dtype=object).ravel()[p])
+            if isnan(sv):
+                env.equal(out.values[p], vals[p], "missing %s (no interior peak): spectrum untouched" % window)
+                continue
+            inside = AND(sv >= lo, sv <= hi)
+        # when the path condition leaves membership open, fork on it: each side is judged on its own
+        member = True if env.proves(inside) else (False if env.proves(NOT(inside)) else bool(inside))
+        if member:
+            env.close(ho2, target * target, "inside the %s window: hs(out) = a*hs(in)+b" % window, rel=1e-9, ctol=1e-5)
+        else:
+            env.equal(out.values[p], vals[p], "outside the %s window: spectrum untouched" % window)
